@@ -139,6 +139,87 @@ def sqCopy (guard : Bool) (a : Alphabet) (src : Sum (List Nat) (List Nat × Nat)
 def Copied.consistent (c : Copied) (digital : Bool) : Bool :=
   if digital then Alphabet.dsqlen c.buf == some c.n else c.buf.length == c.n
 
+/-! ## `esl_sq_FetchFromMSA`: one aligned row (+ its secondary-structure line) → a dealigned sequence, text and digital mode -/
+
+/-- `gapchars = "-_.~"` of `esl_sq_FetchFromMSA` / `esl_sq_GetFromMSA` (text mode only) -/
+def gapchars : List Nat := Alphabet.str "-_.~"
+
+/-- the loop of `esl_strdealign(s, aseq, gapchars, &n)`: `if (strchr(gapchars, aseq[apos]) == NULL) s[n++] = s[apos];`
+    in place on `s`; `none` = an access outside `s` -/
+def strdealignLoop : List Nat → Nat → Nat → List Nat → Option (List Nat × Nat)
+  | [], _, n, s => some (s, n)
+  | c :: cs, apos, n, s =>
+    if c ∈ gapchars then strdealignLoop cs (apos + 1) n s
+    else do
+      let v ← s[apos]?
+      if n < s.length then strdealignLoop cs (apos + 1) (n + 1) (s.set n v) else none
+
+/-- `esl_strdealign(s, aseq, gapchars, &n)`: the string left in `s` (NUL written at `n`) and `n` -/
+def strdealign (s aseq : List Nat) : Option (List Nat × Nat) := do
+  let (s', n) ← strdealignLoop aseq 0 0 s
+  if n ≤ s'.length then some (s'.take n, n) else none
+
+/-- what `esl_sq_FetchFromMSA` returns: sequence (text bytes / whole digital array), its `ss`, `n` -/
+structure Fetched where
+  seq : List Nat
+  ss : Option (List Nat)
+  n : Nat
+  deriving DecidableEq, Repr
+
+/-- text-mode alignment: `esl_sq_CreateFrom(name, aseq, …, ss)`, then `ss` and the sequence dealigned against the sequence -/
+def fetchText (row : List Nat) (ss : Option (List Nat)) : Option Fetched := do
+  let ss' ← match ss with
+    | none => some none
+    | some v => (strdealign v row).map fun r => some r.1
+  let (seq', n) ← strdealign row row
+  some { seq := seq', ss := ss', n := n }
+
+/-- digital alignment: `esl_sq_CreateDigitalFrom(abc, name, ax, alen, …, ss)`, then `esl_abc_CDealign(ss+1, dsq)` and
+    `esl_abc_XDealign(dsq, dsq, &n)` -/
+def fetchDigital (a : Alphabet) (ax : List Nat) (ss : Option (List Nat)) : Option Fetched := do
+  let ss' ← match ss with
+    | none => some none
+    | some v => (a.cDealign v ax).map fun r => some r.1
+  let (d, n) ← a.xDealign ax ax
+  some { seq := d, ss := ss', n := n }
+
+/-- `esl_sq_GetFromMSA(msa, 0, sq)` into an existing `sq` whose ss buffer currently holds `ssOld` (`none` = NULL): the
+    sequence part is what `esl_sq_FetchFromMSA` computes (`strcpy` / `esl_abc_dsqcpy` into `sq`, then the same dealigning);
+    an alignment without SS line leaves `sq->ss` as it was -/
+def getText (row : List Nat) (ss ssOld : Option (List Nat)) : Option Fetched :=
+  (fetchText row ss).map fun f => { f with ss := match ss with | some _ => f.ss | none => ssOld }
+def getDigital (a : Alphabet) (ax : List Nat) (ss ssOld : Option (List Nat)) : Option Fetched :=
+  (fetchDigital a ax ss).map fun f => { f with ss := match ss with | some _ => f.ss | none => ssOld }
+
+/-- allocation state of the per-residue arrays of an `ESL_SQ`: `salloc`, and the number of cells of `sq->ss` (`none` = NULL) -/
+structure SsAlloc where
+  salloc : Nat
+  ssCap : Option Nat
+  deriving DecidableEq, Repr
+
+/-- the allocation side of one `esl_sq_GetFromMSA` call with an alignment of `alen` columns (`extra` = 1 in text mode: cells
+    `0..alen`; 2 in digital mode: cells `0..alen+1`): `esl_sq_GrowTo(sq, alen)` reallocates `seq`/`dsq` and a non-NULL `ss` to
+    `alen+extra` cells when `salloc` is smaller; then, with an SS line, a NULL `ss` is allocated — `exact = true`: to
+    `strlen(ss)+extra` cells (`esl_strdup` / `ESL_ALLOC(strlen(ss)+2)`), `exact = false`: to `salloc` cells — and otherwise
+    `strcpy` writes `alen+extra` cells into the existing buffer: `none` = that copy runs past the buffer -/
+def getAlloc (exact : Bool) (extra : Nat) (st : SsAlloc) (alen : Nat) (hasSs : Bool) : Option SsAlloc :=
+  let st1 : SsAlloc := if alen + extra > st.salloc then { salloc := alen + extra, ssCap := st.ssCap.map fun _ => alen + extra } else st
+  if !hasSs then some st1
+  else match st1.ssCap with
+    | none => some { st1 with ssCap := some (if exact then alen + extra else st1.salloc) }
+    | some cap => if alen + extra ≤ cap then some st1 else none
+
+/-- a history of calls on one reused object (`esl_sq_Reuse` in between does not touch the allocations) -/
+def getAllocRun (exact : Bool) (extra : Nat) : SsAlloc → List (Nat × Bool) → Option SsAlloc
+  | st, [] => some st
+  | st, (alen, hasSs) :: rest =>
+    match getAlloc exact extra st alen hasSs with
+    | none => none
+    | some st' => getAllocRun exact extra st' rest
+
+/-- `esl_sq_Reuse(sq)` on the ss buffer: emptied, not freed -/
+def reuseSs (ss : Option (List Nat)) : Option (List Nat) := ss.map fun _ => []
+
 end Sq
 
 namespace Guess
